@@ -114,10 +114,24 @@ def branch_facts(prog, fn, cx=None):
     extra = []
     for (e, fa) in out:
         if fa[0] == "succ":
+            mo = map_or_source(fa[1])
+            if mo is not None:
+                # `opt.map_or(Ok(()), Err)?`: Ok exactly when opt is None (or the mirror image)
+                fa = ("succ", mo[0], fa[2] == mo[1])
+                extra.append((e, fa))
             c = then_cond(fa[1])
             if c is not None:
                 kind, a, bb_, pos = norm_cond(c)
                 extra.append((e, ("cond", kind, a, bb_, fa[2] == pos)))
+    # emptiness is one fact however it is tested: `x.is_empty()`, `x.len() == 0`, the slice pattern `[]`
+    for (e, fa) in out + extra:
+        if fa[0] == "cond" and fa[1] == "eq" and fa[3] is not None:
+            for a, b_ in ((fa[2], fa[3]), (fa[3], fa[2])):
+                if isinstance(b_, tuple) and b_ and b_[0] == "const" and b_[2] == 0 and isinstance(a, tuple) and a and \
+                        ((a[0] == "call" and a[1].rsplit("::", 1)[-1] == "len" and len(a[2]) == 1) or a[0] == "len"):
+                    extra.append((e, ("cond", "empty", a[2][0] if a[0] == "call" else a[1], None, fa[4])))
+        elif fa[0] == "cond" and fa[1] == "empty":
+            extra.append((e, ("cond", "eq", ("len", fa[2]), ("const", "usize", 0), fa[4])))
     return out + extra
 
 
@@ -145,6 +159,23 @@ def then_cond(X):
     return None
 
 
+def map_or_source(X):
+    """X = opt.map_or(Ok(..), Err) (Ok exactly when opt is None) or opt.map_or(Err(..), Ok) (Ok exactly when opt is Some), possibly
+    under map_err: (opt, polarity) with polarity = "X is Ok iff opt is Some"; else None"""
+    Y = X
+    while isinstance(Y, tuple) and Y and (Y[0] == "map_err" or (Y[0] == "call" and Y[1].rsplit("::", 1)[-1] == "map_err" and Y[2])):
+        Y = Y[1] if Y[0] == "map_err" else Y[2][0]
+    if isinstance(Y, tuple) and Y and Y[0] == "call" and Y[1].rsplit("::", 1)[-1] == "map_or" and "option::Option" in Y[1] and len(Y[2]) == 3:
+        opt, dflt, fn_ = Y[2]
+        is_ctor = lambda t, nm: isinstance(t, tuple) and t and t[0] == "fnref" and t[1] == "core::result::Result::" + nm
+        is_val = lambda t, nm: isinstance(t, tuple) and t and t[0] == "agg" and t[2] == "core::result::Result" and t[3] == nm
+        if is_val(dflt, "Ok") and is_ctor(fn_, "Err"):
+            return opt, False
+        if is_val(dflt, "Err") and is_ctor(fn_, "Ok"):
+            return opt, True
+    return None
+
+
 def ok_facts_of_value(T):
     """facts that hold whenever the Result/Option value T is Ok/Some (T is returned or tested elsewhere)"""
     out = [("succ", T, True)]
@@ -154,6 +185,14 @@ def ok_facts_of_value(T):
     if c is not None:
         kind, a, b, pos = norm_cond(c)
         out.append(("cond", kind, a, b, pos))
+    mo = map_or_source(T)
+    if mo is not None:
+        opt, pol = mo
+        out.append(("succ", opt, pol))
+        c = then_cond(opt)
+        if c is not None:
+            kind, a, b, pos = norm_cond(c)
+            out.append(("cond", kind, a, b, pos == pol))
     return out
 
 
